@@ -34,9 +34,20 @@ CHECKS = {
     technique="TLA+ timestamp-tracker machine with exact arithmetic (Uptime.tla); TLC-generated scenarios (frames + scripted clock + acceptable outputs per segment) replayed into the real TCP analyzer through clock hook H1",
     text="The tracker (reference / bad marker per directed endpoint, guards on interval, tick difference and rate, documented rounding grid, uptime split, wrap period, role rule) is specified with exact integer arithmetic on u32 pairs; TLC generates every rate 1..1500 Hz and rates outside, at every interval around the 25 ms / 100 ms / 600 s bounds, from timestamp bases including the 2^31 and 2^32 wrap, three segments per endpoint (so that the never-moving reference and no-re-evaluation-after-bad are exercised), client and server interleaved; the real analyzer, with its clock scripted through the hook, must report an acceptable value under the right role at every segment.",
     note="Trusted: TLC, Uptime.tla, hook H1. Ties of rounding/tolerance comparisons accepted either way; backward-moving timestamps not judged. Real-time cache expiry (30 s) is not explored."),
+ "C13": dict(
+    level="model_checking", design="§5 C13",
+    technique="TLA+ inverse of the extraction (Reach.tla: conforming packet per signature and grid choice, acceptable labels, code-model prediction) evaluated by TLC over the bundled database exported by the code's own loader; packets replayed through the real analyzer with the bundled matcher",
+    text="For every TCP SYN and SYN+ACK signature of the bundled p0f.fp and every grid choice (IPv4/IPv6, hop counts, MSS and scale where open, ECN placement, payload) TLC builds the conforming packet, proves on the definitions that it conforms, and computes the acceptable labels (own, or an earlier entry the packet conforms to equally); the real analyzer must report one of them. A wrong or missing label is a violation unless the code model predicts exactly that label and every reason it gives is a recorded finding, so a signature that dies for a new reason is reported.",
+    note="Trusted: TLC, Reach/TcpExtract/Match, harness projection. Grid is bounded (quick: 1 MSS, 1 scale, 2 hop counts; thorough: 4x3x4). HTTP signatures are covered by the HTTP half once built."),
 }
 
 NOT_YET = {}
+
+def hook_commits():
+    import subprocess
+    out = subprocess.run(["git", "-C", "/repo", "log", "--format=%h %s"], capture_output=True, text=True).stdout.splitlines()
+    return [l.split()[0] for l in out if "verif hook" in l]
+
 
 def main():
     props = [json.loads(l) for l in open(os.path.join(ROOT, "properties.jsonl"))]
@@ -66,7 +77,7 @@ def main():
             "guard": "--cfg huginn_net_verif",
             "enable": "RUSTFLAGS='--cfg huginn_net_verif' via /verif/harness/.cargo/config.toml (the harness builds /repo's crates as path dependencies)",
             "baseline_off_cmd": "cd /repo && cargo test --workspace --no-fail-fast --offline",
-            "source_commits": [],
+            "source_commits": hook_commits(),
             "add_only": True,
         },
         "engines": [
